@@ -5,9 +5,10 @@ from harness.core import Result
 from harness import enginea, valgen
 from harness.props import c01
 
-LEAN_MODULES = ["ZeepProofs.C02"]
+LEAN_MODULES = ["ZeepProofs.C02", "ZeepProofs.C01Values", "ZeepProofs.C01KwChoice"]
 NS = "Zeep.Xsd."
-THEOREMS = [NS + t for t in ("c02_texts_preserved", "c02_names_declared", "c02_elem_count", "c02_absent_emits_nothing")]
+THEOREMS = [NS + t for t in ("c02_texts_preserved", "c02_names_declared", "c02_elem_count", "c02_absent_emits_nothing")] + [
+    "Zeep.Bind.render_is_reference_serialisation", "Zeep.BindKw.renderRecord_denotes"]
 LEVEL = "proof"
 MANIFEST = dict(
     engine="A: lean/ZeepModel/Xsd/Serialize.lean (+ harness/valgen.py reference serialiser, libxml2 validator)",
@@ -15,7 +16,7 @@ MANIFEST = dict(
               "(leaf texts of the output are exactly the leaf texts of the instance, in order: nothing missing, nothing added; every emitted "
               "element name is a declared name; an element declaration emits exactly one node per item); differential tie: zeep's rendering of "
               "conforming values vs the model's serialisation vs a reference serialiser written from the XSD rules, judged by libxml2",
-    text="For every particle kind of the model (element, wildcard, sequence, choice, all, group; any nesting, any occurrence) the serialisation "
+    text="What the models of zeep's own rendering emit IS the reference serialisation: render_is_reference_serialisation (ZeepProofs/C01Values.lean) for every record signature of the binder model - emitTy = serItem (toTy signature) (itemOf arguments) - and renderRecord_denotes (ZeepProofs/C01KwChoice.lean) for records with choices rendered from the fields a keyword call bound; both models are tied to zeep's output on every C12 run. For every particle kind of the model (element, wildcard, sequence, choice, all, group; any nesting, any occurrence) the serialisation "
          "of an instance carries exactly the instance's leaf texts and attribute values in instance order and only declared element names. "
          "Every run ties the model to zeep: conforming values generated independently of zeep (wide leaf table, list / restriction types, "
          "per-declaration form on elements and attributes across the full grid of form defaults, nillable, xsi:type incl. heterogeneous "
